@@ -123,6 +123,8 @@ theorem ctl_ab (c : Ctl) (l : Link Env) : (c.fn l).1.a = l.a ∧ (c.fn l).1.b = 
   cases c with
   | partitionOneway s d => exact C03Sets.ab_partitionOneway l s d
   | repairOneway s d => unfold Ctl.fn Link.repairOneway; simp only; split <;> exact ⟨rfl, rfl⟩
+  | partition => exact ⟨(Link.explicitPartition_fields l).1, (Link.explicitPartition_fields l).2.1⟩
+  | hold => unfold Ctl.fn Link.hold; simp only; split <;> exact ⟨rfl, rfl⟩
   | _ => exact ⟨rfl, rfl⟩
 
 theorem gstep_ab (cfg : Cfg) (l : Link Env) (o : GOp) : (gstep cfg l o).1.a = l.a ∧ (gstep cfg l o).1.b = l.b := by
@@ -140,6 +142,43 @@ theorem grun_ab (cfg : Cfg) (l : Link Env) (ops : List GOp) : (grun cfg l ops).1
     have h1 := gstep_ab cfg l o
     have h2 := ih (gstep cfg l o).1
     exact ⟨h2.1.trans h1.1, h2.2.trans h1.2⟩
+
+/-! ### the variant flag of a link is never written -/
+
+theorem randStep_flag (cfg : Cfg) (l : Link Env) (cf cr : Bool) : (Link.randStep cfg l cf cr).1.fixMatured = l.fixMatured := by
+  unfold Link.randStep Link.release; repeat' split
+  all_goals rfl
+
+theorem enqueue_flag (cfg : Cfg) (l : Link Env) (cf cr : Bool) (d s t : Nat) (e : Env) :
+    (l.enqueue cfg cf cr d s t e).1.fixMatured = l.fixMatured := by
+  have h2 : ∀ k : Link Env, (k.enqueueRaw d s t e).1.fixMatured = k.fixMatured := by
+    intro k; unfold Link.enqueueRaw; simp only; split <;> rfl
+  show ((Link.randStep cfg l cf cr).1.enqueueRaw d s t e).1.processDeliverables.fixMatured = l.fixMatured
+  have h3 : ∀ k : Link Env, k.processDeliverables.fixMatured = k.fixMatured := fun _ => rfl
+  rw [h3, h2, randStep_flag]
+
+theorem hold_flag (l : Link Env) : l.hold.fixMatured = l.fixMatured := by
+  unfold Link.hold; split <;> rfl
+
+theorem ctl_flag (c : Ctl) (l : Link Env) : (c.fn l).1.fixMatured = l.fixMatured := by
+  cases c with
+  | partition => exact (Link.explicitPartition_fields l).2.2.2.2.2.2.2.2.2.2.2
+  | partitionOneway s d => exact (Link.partitionOneway_fields l s d).2.2.2.2.2.2.2.2.2.2.2
+  | repairOneway s d => unfold Ctl.fn Link.repairOneway; simp only; split <;> rfl
+  | hold => exact hold_flag l
+  | _ => rfl
+
+theorem gstep_flag (cfg : Cfg) (l : Link Env) (o : GOp) : (gstep cfg l o).1.fixMatured = l.fixMatured := by
+  cases o with
+  | enq cf cr d s t e => exact enqueue_flag cfg l cf cr d s t e
+  | tick now => rfl
+  | drain n => unfold gstep Link.drain; simp only; split; rfl; split <;> rfl
+  | ctl c => exact ctl_flag c l
+
+theorem grun_flag (cfg : Cfg) (l : Link Env) (ops : List GOp) : (grun cfg l ops).1.fixMatured = l.fixMatured := by
+  induction ops generalizing l with
+  | nil => rfl
+  | cons o ops ih => rw [grun_cons]; exact (ih _).trans (gstep_flag cfg l o)
 
 /-! ### the part of a world the link machinery uses besides the link table -/
 
